@@ -37,6 +37,15 @@ func Catalogue(prop, tier string) []Cfg {
 		add(pc("v2", []uint{5}, 2, "rate", []int{0}, []int{3}, "rr", ""))
 		add(pc("s2", []uint{1, 0}, 2, "fair", []int{2}, []int{1, 2}, "", ""))
 		add(pc("s1", []uint{1, 0}, 2, "fair", []int{2}, []int{1, 2}, "", ""))
+		// the accessors are first called by the consumers themselves, concurrently
+		for _, l := range []Cfg{
+			pc("v2", []uint{2, 1}, 2, "fair", []int{1}, []int{1}, "pool", ""),
+			pc("v2", []uint{2, 1}, 2, "fair", []int{2}, []int{1, 1}, "rr", ""),
+			pc("s2", []uint{2, 1}, 2, "fair", []int{1}, []int{1}, "", ""),
+		} {
+			l.LazyAcc = true
+			add(l)
+		}
 		// v2, handler pool (README style), one handler more than capacity
 		add(pc("v2", []uint{2, 1}, 2, "fair", []int{2}, []int{2}, "pool", ""))
 		add(pc("v2", []uint{2, 1}, 2, "rate", []int{2}, []int{2, 1}, "pool", "extra"))
@@ -435,6 +444,16 @@ func Catalogue(prop, tier string) []Cfg {
 		c := pc("v1", []uint{2, 1}, 3, "fair", []int{2}, []int{1, 1}, "pool", "")
 		c.Script = 2
 		add(c)
+		// "after AddInput returns, elements of ch are delivered" while the other inputs are
+		// saturated for ever: new priority, replaced channel, removed and registered again
+		for _, e := range []struct {
+			ops []int
+			n   []int
+		}{{[]int{0}, []int{-1, -1}}, {[]int{0}, []int{-1, 1}}, {[]int{1}, []int{1, -1}}, {[]int{3, 5}, []int{-1, 2}}, {[]int{2, 4}, []int{2, -1}}} {
+			c := pc("v1", []uint{2, 1}, 2, "fair", []int{2}, e.n, "rr", "mixed")
+			c.Script, c.Ops = len(e.ops), e.ops
+			add(c)
+		}
 	case "C08", "C09", "C10", "C11":
 		jc := func(disc string, j int, nocopy bool, cp int, n int, timeout int64, inacc uint, pauses, delays, retain []int64) Cfg {
 			c := Cfg{Harness: "join", Disc: disc, J: j, NoCopy: nocopy, Cap: []int{cp}, N: []int{n}, Timeout: timeout, Inacc: inacc, Pauses: pauses, Delays: delays, Retain: retain, Bound: -1}
@@ -651,6 +670,9 @@ func Catalogue(prop, tier string) []Cfg {
 				l.Late, l.Horizon = 1, 3
 				add(l)
 			}
+			// the first calls of Output() come from two goroutines at once
+			add(lc(1, 3, 2, 3, []int64{0, 1}, []int64{0, 1}, "outputs"))
+			add(lc(2, 2, 0, 4, []int64{0, 2}, []int64{0}, "outputs"))
 			// prefilled bursts
 			add(lc(2, 3, 7, 7, nil, []int64{0, 1, 3}, "prefill"))
 			add(lc(3, 2, 10, 10, nil, []int64{0, 2}, "prefill"))
@@ -690,6 +712,8 @@ func Catalogue(prop, tier string) []Cfg {
 			c := lc(2, 3, 1, 4, []int64{0, 1, 3}, []int64{0, 1}, "")
 			c.Late, c.Horizon = 1, 20
 			add(c)
+			add(lc(1, 3, 2, 3, []int64{0, 1}, []int64{0, 1}, "outputs"))
+			add(lc(2, 2, 0, 4, []int64{0, 2}, []int64{0}, "outputs"))
 		}
 	case "C13":
 		// re-entrancy of the conversions (Engine A part; the input domain is Engine B's)
@@ -846,6 +870,14 @@ func Catalogue(prop, tier string) []Cfg {
 						add(c)
 					}
 				}
+			}
+			// the first calls of Output() come from two goroutines at once
+			{
+				l := Cfg{Harness: "join", Disc: disc, J: 2, NoCopy: true, LazyAcc: true, Cap: []int{1}, N: []int{3}, Bound: -1}
+				if disc == "unite2" {
+					l.Lens = []int{1, 2}
+				}
+				add(l)
 			}
 			x := Cfg{Harness: "join", Disc: disc, J: 2, Cap: []int{1}, N: []int{4}, Timeout: 4, Pauses: []int64{0, 5}, Delays: []int64{0, 2}, Bound: -1, Cross: 60}
 			if disc == "unite2" {
